@@ -7,6 +7,7 @@ import (
 	"net"
 	"strconv"
 	"strings"
+	"sync"
 	"sync/atomic"
 	"time"
 
@@ -26,14 +27,17 @@ import (
 // where the next request starts.
 
 type c28Req struct {
-	Kind string `json:"kind"`
-	Blen int    `json:"blen"`
+	Kind  string `json:"kind"`
+	Blen  int    `json:"blen"`
+	Chunk int    `json:"chunk,omitempty"` // chunk size of a chunked body (0 = 1000)
 }
 
 type c28Case struct {
 	ID     int      `json:"id"`
 	Reqs   []c28Req `json:"reqs"`
-	Splits []int    `json:"splits"` // write sizes; empty = one segment
+	Splits []int    `json:"splits"`        // write sizes; empty = one segment
+	Fam    string   `json:"fam,omitempty"` // "" = original family, "bodied" = bodies on methods that usually have none
+	Seq    bool     `json:"seq,omitempty"` // keep-alive: request i+1 is written only after the final response to request i arrived (false = pipelined)
 }
 
 var c28Kinds = []string{
@@ -52,8 +56,12 @@ var c28Kinds = []string{
 
 // decoy is what request bodies are made of: if body bytes are ever parsed as a
 // request, a /decoy request shows up at the backend or in the response stream.
+func c28Unit(id string) []byte {
+	return []byte(fmt.Sprintf("GET /decoy/%s HTTP/1.1\r\nHost: c28.test\r\nX-Id: decoy-%s\r\n\r\n", id, id))
+}
+
 func c28Body(id string, n int) []byte {
-	unit := []byte(fmt.Sprintf("GET /decoy/%s HTTP/1.1\r\nHost: c28.test\r\nX-Id: decoy-%s\r\n\r\n", id, id))
+	unit := c28Unit(id)
 	var b bytes.Buffer
 	for b.Len() < n {
 		b.Write(unit)
@@ -65,68 +73,131 @@ func (c *c28Case) rid(i int) string { return fmt.Sprintf("c%dr%d", c.ID, i) }
 
 func (c *c28Case) bytes() []byte {
 	var out bytes.Buffer
-	for i, q := range c.Reqs {
-		id := c.rid(i)
-		body := c28Body(id, q.Blen)
-		last := i == len(c.Reqs)-1
-		closeHdr := ""
-		if last {
-			closeHdr = "Connection: close\r\n"
+	for i := range c.Reqs {
+		out.Write(c.reqBytes(i))
+	}
+	return out.Bytes()
+}
+
+// Bodies on methods that usually have none ("bodied" family). Kind = [mod-]<method>-body-<cl|chunked>.
+var c28BodiedMethods = []string{"head", "get", "delete", "options", "trace", "frob"} // frob: a method bfe does not know
+
+// c28Bodied splits a bodied kind into its parts; ok is false for every other kind.
+func c28Bodied(kind string) (method, framing string, mod, ok bool) {
+	k := strings.TrimPrefix(kind, "mod-")
+	i := strings.Index(k, "-body-")
+	if i < 0 {
+		return "", "", false, false
+	}
+	return k[:i], k[i+6:], k != kind, true
+}
+
+// c28Method is the request method of a kind (what the response parser needs to know: HEAD or not).
+func c28Method(kind string) string {
+	if m, _, _, ok := c28Bodied(kind); ok {
+		return strings.ToUpper(m)
+	}
+	switch {
+	case kind == "head":
+		return "HEAD"
+	case strings.Contains(kind, "post"):
+		return "POST"
+	}
+	return "GET"
+}
+
+// c28WellFormed: the request of this kind is a syntactically valid HTTP/1.1 request with an
+// unambiguous, correctly delimited body. bfe has no reason to answer it with "400 Bad Request".
+func c28WellFormed(kind string) bool {
+	switch kind {
+	case "big-header", "bad-request-line", "mod-post-chunked-badsize", "post-chunked-badsize":
+		return false
+	}
+	return true
+}
+
+func c28WriteChunked(out *bytes.Buffer, body []byte, k int) {
+	if k <= 0 {
+		k = 1000
+	}
+	rest := body
+	for len(rest) > 0 {
+		n := k
+		if n > len(rest) {
+			n = len(rest)
 		}
-		mod := ""
-		if strings.HasPrefix(q.Kind, "mod-") {
-			mod = "X-Mod: 1\r\n"
-		}
-		head := func(method, version string) {
-			fmt.Fprintf(&out, "%s /c28/%s %s\r\nHost: c28.test\r\nX-Id: %s\r\n%s%s", method, id, version, id, mod, closeHdr)
-		}
-		switch q.Kind {
-		case "get", "mod-get":
-			head("GET", "HTTP/1.1")
-			out.WriteString("\r\n")
-		case "head":
-			head("HEAD", "HTTP/1.1")
-			out.WriteString("\r\n")
-		case "get-http10":
-			head("GET", "HTTP/1.0")
-			out.WriteString("\r\n")
-		case "post-cl", "mod-post-cl":
-			head("POST", "HTTP/1.1")
+		fmt.Fprintf(out, "%x\r\n", n)
+		out.Write(rest[:n])
+		out.WriteString("\r\n")
+		rest = rest[n:]
+	}
+	out.WriteString("0\r\n\r\n")
+}
+
+// reqBytes renders request i of the case.
+func (c *c28Case) reqBytes(i int) []byte {
+	var out bytes.Buffer
+	q := c.Reqs[i]
+	id := c.rid(i)
+	body := c28Body(id, q.Blen)
+	last := i == len(c.Reqs)-1
+	closeHdr := ""
+	if last {
+		closeHdr = "Connection: close\r\n"
+	}
+	mod := ""
+	if strings.HasPrefix(q.Kind, "mod-") {
+		mod = "X-Mod: 1\r\n"
+	}
+	head := func(method, version string) {
+		fmt.Fprintf(&out, "%s /c28/%s %s\r\nHost: c28.test\r\nX-Id: %s\r\n%s%s", method, id, version, id, mod, closeHdr)
+	}
+	if m, framing, _, ok := c28Bodied(q.Kind); ok {
+		head(strings.ToUpper(m), "HTTP/1.1")
+		if framing == "cl" {
 			fmt.Fprintf(&out, "Content-Length: %d\r\n\r\n", len(body))
 			out.Write(body)
-		case "post-cl-conn-close":
-			head("POST", "HTTP/1.1")
-			fmt.Fprintf(&out, "Connection: close\r\nContent-Length: %d\r\n\r\n", len(body))
-			out.Write(body)
-		case "post-chunked", "mod-post-chunked":
-			head("POST", "HTTP/1.1")
+		} else {
 			out.WriteString("Transfer-Encoding: chunked\r\n\r\n")
-			rest := body
-			for len(rest) > 0 {
-				k := 1000
-				if k > len(rest) {
-					k = len(rest)
-				}
-				fmt.Fprintf(&out, "%x\r\n", k)
-				out.Write(rest[:k])
-				out.WriteString("\r\n")
-				rest = rest[k:]
-			}
-			out.WriteString("0\r\n\r\n")
-		case "mod-post-chunked-badsize", "post-chunked-badsize":
-			head("POST", "HTTP/1.1")
-			out.WriteString("Transfer-Encoding: chunked\r\n\r\n5\r\nhello\r\nZZ\r\n")
-			out.Write(c28Body(id, 300)) // what follows the bad line looks like requests
-		case "post-expect", "mod-post-expect":
-			head("POST", "HTTP/1.1")
-			fmt.Fprintf(&out, "Expect: 100-continue\r\nContent-Length: %d\r\n\r\n", len(body))
-			out.Write(body)
-		case "big-header":
-			head("GET", "HTTP/1.1")
-			fmt.Fprintf(&out, "X-Big: %s\r\n\r\n", strings.Repeat("h", 20000))
-		case "bad-request-line":
-			fmt.Fprintf(&out, "GET/c28/%s\r\nHost: c28.test\r\n\r\n", id)
+			c28WriteChunked(&out, body, q.Chunk)
 		}
+		return out.Bytes()
+	}
+	switch q.Kind {
+	case "get", "mod-get":
+		head("GET", "HTTP/1.1")
+		out.WriteString("\r\n")
+	case "head":
+		head("HEAD", "HTTP/1.1")
+		out.WriteString("\r\n")
+	case "get-http10":
+		head("GET", "HTTP/1.0")
+		out.WriteString("\r\n")
+	case "post-cl", "mod-post-cl":
+		head("POST", "HTTP/1.1")
+		fmt.Fprintf(&out, "Content-Length: %d\r\n\r\n", len(body))
+		out.Write(body)
+	case "post-cl-conn-close":
+		head("POST", "HTTP/1.1")
+		fmt.Fprintf(&out, "Connection: close\r\nContent-Length: %d\r\n\r\n", len(body))
+		out.Write(body)
+	case "post-chunked", "mod-post-chunked":
+		head("POST", "HTTP/1.1")
+		out.WriteString("Transfer-Encoding: chunked\r\n\r\n")
+		c28WriteChunked(&out, body, q.Chunk)
+	case "mod-post-chunked-badsize", "post-chunked-badsize":
+		head("POST", "HTTP/1.1")
+		out.WriteString("Transfer-Encoding: chunked\r\n\r\n5\r\nhello\r\nZZ\r\n")
+		out.Write(c28Body(id, 300)) // what follows the bad line looks like requests
+	case "post-expect", "mod-post-expect":
+		head("POST", "HTTP/1.1")
+		fmt.Fprintf(&out, "Expect: 100-continue\r\nContent-Length: %d\r\n\r\n", len(body))
+		out.Write(body)
+	case "big-header":
+		head("GET", "HTTP/1.1")
+		fmt.Fprintf(&out, "X-Big: %s\r\n\r\n", strings.Repeat("h", 20000))
+	case "bad-request-line":
+		fmt.Fprintf(&out, "GET/c28/%s\r\nHost: c28.test\r\n\r\n", id)
 	}
 	return out.Bytes()
 }
@@ -162,6 +233,59 @@ func c28Gen(g *vkit.Rand, id int) *c28Case {
 	return c
 }
 
+// c28UnitLen is the length of one decoy request for request id.
+func c28UnitLen(id string) int { return len(c28Unit(id)) }
+
+var c28Fillers = []string{"get", "head", "post-cl", "post-chunked", "mod-get", "mod-post-cl"}
+
+// c28GenBodied: 2-5 requests on one connection, at least one of them (never only the last, which
+// carries Connection: close) with a declared body on a method that usually has none; the body is
+// a whole number of well-formed decoy requests (or, less often, cut at an arbitrary length).
+func c28GenBodied(g *vkit.Rand, id int) *c28Case {
+	c := &c28Case{ID: id, Fam: "bodied"}
+	n := g.Range(2, 5)
+	must := g.Intn(n - 1)
+	for i := 0; i < n; i++ {
+		if i != must && g.Chance(1, 2) {
+			q := c28Req{Kind: c28Fillers[g.Intn(len(c28Fillers))]}
+			if strings.Contains(q.Kind, "post") {
+				q.Blen = []int{1, 90, 700, 4096}[g.Intn(4)]
+			}
+			c.Reqs = append(c.Reqs, q)
+			continue
+		}
+		m := c28BodiedMethods[g.Intn(len(c28BodiedMethods))]
+		framing := []string{"cl", "chunked"}[g.Intn(2)]
+		q := c28Req{Kind: m + "-body-" + framing}
+		if g.Chance(1, 4) {
+			q.Kind = "mod-" + q.Kind
+		}
+		if g.Chance(3, 4) {
+			q.Blen = []int{1, 1, 2, 15, 1000}[g.Intn(5)] * c28UnitLen(c.rid(i))
+		} else {
+			q.Blen = []int{1, 90, 700, 4096}[g.Intn(4)]
+		}
+		if framing == "chunked" {
+			switch g.Intn(3) {
+			case 0:
+				q.Chunk = q.Blen // the whole body in one chunk
+			case 1:
+				if q.Blen <= 5000 {
+					q.Chunk = 7
+				}
+			}
+		}
+		c.Reqs = append(c.Reqs, q)
+	}
+	c.Seq = g.Bool()
+	if g.Chance(1, 2) {
+		for i := 0; i < 8; i++ {
+			c.Splits = append(c.Splits, g.Range(1, 3000))
+		}
+	}
+	return c
+}
+
 // Client-side time limits. Every read and write on a C28 connection carries a deadline, so a
 // connection that bfe leaves open cannot hold the run: the exchange is abandoned and judged.
 const (
@@ -181,6 +305,7 @@ type c28Result struct {
 	writeStalled bool   // a write hit c28WriteStall
 	dialFailed   bool
 	notRun       bool
+	seqGaveUp    bool // keep-alive mode: the response awaited before the next request did not arrive within c28Grace; the rest was written anyway
 }
 
 // c28Exchange writes the case on a new connection while reading concurrently, until bfe ends the
@@ -194,7 +319,8 @@ func c28Exchange(addr string, c *c28Case) (res c28Result) {
 	defer conn.Close()
 	start := time.Now()
 	var lastRx, writerDone atomic.Int64 // unix nanoseconds; writerDone == 0 while there is still something to send
-	var rd c28Result                    // owned by the reader until done is closed
+	var rd c28Result                    // owned by the reader until done is closed (rd.raw: guarded by rawMu, the keep-alive writer peeks at it)
+	var rawMu sync.Mutex
 	done := make(chan struct{})
 	go func() { // reader runs concurrently: responses may arrive while we still write
 		defer close(done)
@@ -203,7 +329,9 @@ func c28Exchange(addr string, c *c28Case) (res c28Result) {
 			conn.SetReadDeadline(time.Now().Add(c28ReadSlice))
 			n, err := conn.Read(buf)
 			if n > 0 {
+				rawMu.Lock()
 				rd.raw = append(rd.raw, buf[:n]...)
+				rawMu.Unlock()
 				lastRx.Store(time.Now().UnixNano())
 			}
 			if err == nil {
@@ -236,55 +364,119 @@ func c28Exchange(addr string, c *c28Case) (res c28Result) {
 			}
 		}
 	}()
-	data := c.bytes()
-	k := 0
-write:
-	for len(data) > 0 {
-		n := len(data)
-		if len(c.Splits) > 0 {
-			n = c.Splits[k%len(c.Splits)]
-			k++
-			if n > len(data) {
-				n = len(data)
+	// pipelined: everything is one byte string; keep-alive: one segment per request, request i is
+	// written when i final responses have arrived (or the reader ended, or the stream no longer
+	// parses, or - never a verdict - nothing arrived for c28Grace).
+	segs := [][]byte{c.bytes()}
+	if c.Seq {
+		segs = segs[:0]
+		for i := range c.Reqs {
+			segs = append(segs, c.reqBytes(i))
+		}
+	}
+	finals := func() (n int, stop bool) {
+		rawMu.Lock()
+		snap := append([]byte(nil), rd.raw...)
+		rawMu.Unlock()
+		pos := 0
+		for pos < len(snap) && n < len(c.Reqs) {
+			minor := 1
+			if c.Reqs[n].Kind == "get-http10" {
+				minor = 0
+			}
+			resp, m, rej := http1.ParseResponse(snap[pos:], c28Method(c.Reqs[n].Kind), minor)
+			if rej != nil {
+				return n, !rej.Incomplete
+			}
+			pos += m
+			if resp.Status != 100 {
+				n++
+			}
+			if resp.CloseDelimited {
+				return n, true
 			}
 		}
-		seg := data[:n]
-		data = data[n:]
-		for len(seg) > 0 {
-			if time.Since(start) >= c28Cap {
-				break write
-			}
-			m := len(seg)
-			if m > c28WriteChunk {
-				m = c28WriteChunk
-			}
-			conn.SetWriteDeadline(time.Now().Add(c28WriteStall))
-			wn, err := conn.Write(seg[:m])
-			seg = seg[wn:]
-			if err != nil {
-				// bfe closed the connection (legitimate after a terminal request), or it stopped reading
-				if ne, ok := err.(net.Error); ok && ne.Timeout() {
-					res.writeStalled = true
+		return n, false
+	}
+	k := 0
+	gating := c.Seq
+write:
+	for si, data := range segs {
+		if gating && si > 0 {
+			waitStart := time.Now()
+		wait:
+			for {
+				n, stop := finals()
+				if stop {
+					gating = false
 				}
-				break write
+				if n >= si || stop {
+					break
+				}
+				select {
+				case <-done:
+					gating = false
+					break wait
+				case <-time.After(2 * time.Millisecond):
+				}
+				if time.Since(waitStart) >= c28Grace {
+					res.seqGaveUp = true
+					gating = false
+					break
+				}
+			}
+		}
+		for len(data) > 0 {
+			n := len(data)
+			if len(c.Splits) > 0 {
+				n = c.Splits[k%len(c.Splits)]
+				k++
+				if n > len(data) {
+					n = len(data)
+				}
+			}
+			seg := data[:n]
+			data = data[n:]
+			for len(seg) > 0 {
+				if time.Since(start) >= c28Cap {
+					break write
+				}
+				m := len(seg)
+				if m > c28WriteChunk {
+					m = c28WriteChunk
+				}
+				conn.SetWriteDeadline(time.Now().Add(c28WriteStall))
+				wn, err := conn.Write(seg[:m])
+				seg = seg[wn:]
+				if err != nil {
+					// bfe closed the connection (legitimate after a terminal request), or it stopped reading
+					if ne, ok := err.(net.Error); ok && ne.Timeout() {
+						res.writeStalled = true
+					}
+					break write
+				}
 			}
 		}
 	}
 	writerDone.Store(time.Now().UnixNano())
 	<-done
-	stalled := res.writeStalled
+	stalled, gaveUp := res.writeStalled, res.seqGaveUp
 	res = rd
-	res.writeStalled = stalled
+	res.writeStalled, res.seqGaveUp = stalled, gaveUp
 	return
 }
 
 func c28(r *vkit.Run) {
-	r.SetRule("full in-process BFE (MaxHeaderBytes 8192); each connection carries 2-6 pipelined requests drawn from 15 kinds (GET, HEAD, POST with Content-Length / chunked / Expect: 100-continue bodies of 1 B..1.1 MB, the same answered by a module response so that no handler reads the body, HTTP/1.0, Connection: close, a 20 KB header, an unparsable request line, chunked bodies with a malformed chunk-size line both forwarded and left unread by a module response), written in one segment or split at random sizes; request bodies consist of well-formed decoy requests; the client byte stream is parsed by the strict reference response parser: responses must match requests in order (ids echoed by backend/module), at most one final response each, no decoy ever answered or seen by a backend, nothing after a request that ends the connection, and the connection is closed (FIN or reset within 10 s of the last octet, every client read and write carrying a deadline) after a response that ends it: to a request bfe cannot continue after, to a request or with a response carrying Connection: close, or with a close-delimited body. Non-trivial = >=2 requests answered or a terminal kind in the middle; distinct = kind/size sequence")
+	r.SetRule("full in-process BFE (MaxHeaderBytes 8192). Family 1: each connection carries 2-6 pipelined requests drawn from 15 kinds (GET, HEAD, POST with Content-Length / chunked / Expect: 100-continue bodies of 1 B..1.1 MB, the same answered by a module response so that no handler reads the body, HTTP/1.0, Connection: close, a 20 KB header, an unparsable request line, chunked bodies with a malformed chunk-size line both forwarded and left unread by a module response), written in one segment or split at random sizes. Family 2 (bodies on methods that usually have none): each connection carries 2-5 requests, at least one of them before the last a HEAD / GET / DELETE / OPTIONS / TRACE / unknown-method (FROB) request that declares a body with Content-Length or chunked coding (chunks of 7 B, 1000 B or the whole body; forwarded, or answered by a module response so that no handler reads it), mixed with ordinary GET / HEAD / POST requests; half of the connections pipelined, half keep-alive (request i+1 written only when the final response to request i has arrived); every generated request of family 2 is accepted in full by the reference request parser. Request bodies consist of well-formed decoy requests (in family 2 mostly a whole number of them: 1, 2, 15 or 1000). The client byte stream is parsed by the strict reference response parser: responses must match requests in order (ids echoed by backend/module), at most one final response each, no decoy ever answered or seen by a backend, no bfe '400 Bad Request' in the place of the response to a well-formed request (bfe writes it only when it fails to parse a request head), no further response on the connection after a forwarded request whose declared body did not arrive at the backend as that request's body (length and content reported by the backend), nothing after a request that ends the connection, and the connection is closed (FIN or reset within 10 s of the last octet, every client read and write carrying a deadline) after a response that ends it: to a request bfe cannot continue after, to a request or with a response carrying Connection: close, or with a close-delimited body. Non-trivial = family 1: >=2 requests answered or a terminal kind in the middle; family 2: a bodied request and the request after it both answered in order; distinct = kind/size/chunk sequence and connection mode")
 	bs := e2e.NewBackendSet()
 	defer bs.Close()
 	be := bs.New("b1", func(x *e2e.Exchange) e2e.Action {
 		id := x.Req.Header.Get("X-Id")
-		return e2e.Action{Status: 200, Header: [][2]string{{"X-Echo-Id", id}, {"X-Body-Len", strconv.Itoa(len(x.Body))}}, Body: []byte("backend " + id)}
+		bodyOK := "0"
+		if x.BodyErr == nil && bytes.Equal(x.Body, c28Body(id, len(x.Body))) {
+			bodyOK = "1" // what arrived as the body is a prefix of the body the client declared and sent for this id
+		}
+		return e2e.Action{Status: 200, Header: [][2]string{{"X-Echo-Id", id}, {"X-Body-Len", strconv.Itoa(len(x.Body))}, {"X-Body-Ok", bodyOK}}, Body: []byte("backend " + id)}
 	})
 	srv, err := e2e.Start(&e2e.Options{MaxHeaderBytes: 8192, Clusters: []e2e.Cluster{{
 		Name: "c28", Hosts: []string{"c28.test"}, MaxIdleConnsPerHost: 0,
@@ -329,6 +521,28 @@ func c28(r *vkit.Run) {
 		for i := 0; i < n; i++ {
 			cases = append(cases, c28Gen(r.Rng("case", i), i))
 		}
+		// second family (own generator stream, so the cases above are what they always were)
+		nb := r.N(1000, 15000)
+		for i := 0; i < nb; i++ {
+			cases = append(cases, c28GenBodied(r.Rng("bodied", i), n+i))
+		}
+	}
+	selfcheckFailed := 0
+	for _, c := range cases {
+		if c.Fam != "bodied" {
+			continue
+		}
+		// generator self-check against the reference request parser: every request of this family is well-formed
+		for i := range c.Reqs {
+			b := c.reqBytes(i)
+			if _, n, rej := http1.ParseRequest(b); rej != nil || n != len(b) {
+				selfcheckFailed++
+			}
+		}
+	}
+	if selfcheckFailed > 0 {
+		r.Inconclusive(fmt.Sprintf("generator self-check: %d requests of the bodied family are not accepted in full by the reference request parser", selfcheckFailed))
+		return
 	}
 	results := make([]c28Result, len(cases))
 	var hungTotal atomic.Int64
@@ -352,12 +566,20 @@ func c28(r *vkit.Run) {
 		}
 		arrivals[x.Req.Header.Get("X-Id")]++
 	}
+	firstFamSamples := 0
 	for i, c := range cases {
 		var kinds []string
 		for _, q := range c.Reqs {
-			kinds = append(kinds, fmt.Sprintf("%s/%d", q.Kind, q.Blen))
+			k := fmt.Sprintf("%s/%d", q.Kind, q.Blen)
+			if q.Chunk != 0 {
+				k += fmt.Sprintf("/%d", q.Chunk)
+			}
+			kinds = append(kinds, k)
 		}
 		key := strings.Join(kinds, ",")
+		if c.Seq {
+			key += "|keep-alive"
+		}
 		res := &results[i]
 		w := map[string]interface{}{"case": c, "kinds": kinds, "client_bytes": clip(string(res.raw), 3000), "eof": res.eof, "hung": res.hung, "write_stalled": res.writeStalled}
 		if res.reset {
@@ -380,6 +602,8 @@ func c28(r *vkit.Run) {
 		ok := true
 		pos := 0
 		lastRespClose, lastCloseDelimited, tailCut := false, false, false
+		shortAt := -1 // index of a forwarded request whose body did not arrive at the backend as declared
+		shortWhat := ""
 		for pos < len(raw) {
 			if answered >= len(c.Reqs) {
 				r.Violation("more-responses-than-requests:after:"+c.Reqs[len(c.Reqs)-1].Kind, fmt.Sprintf("%d bytes follow the last request's response", len(raw)-pos), w)
@@ -387,12 +611,7 @@ func c28(r *vkit.Run) {
 				break
 			}
 			q := c.Reqs[answered]
-			method := "GET"
-			if q.Kind == "head" {
-				method = "HEAD"
-			} else if strings.Contains(q.Kind, "post") {
-				method = "POST"
-			}
+			method := c28Method(q.Kind)
 			minor := 1
 			if q.Kind == "get-http10" {
 				minor = 0
@@ -422,7 +641,13 @@ func c28(r *vkit.Run) {
 			switch {
 			case len(echo) == 1 && echo[0] == id:
 			case len(echo) == 1 && strings.HasPrefix(echo[0], "decoy"):
-				r.Violation("decoy-answered:at:"+q.Kind, fmt.Sprintf("response #%d answers a decoy request carried in a body (%s)", answered, echo[0]), w)
+				where := "at:" + q.Kind
+				for j := range c.Reqs {
+					if echo[0] == "decoy-"+c.rid(j) {
+						where = "body-of:" + c.Reqs[j].Kind // the request whose body the answered decoy was part of
+					}
+				}
+				r.Violation("decoy-answered:"+where, fmt.Sprintf("response #%d answers a decoy request carried in a body (%s)", answered, echo[0]), w)
 				ok = false
 			case len(echo) == 1:
 				r.Violation("response-order:at:"+q.Kind, fmt.Sprintf("response #%d carries id %s, want %s", answered, echo[0], id), w)
@@ -430,9 +655,39 @@ func c28(r *vkit.Run) {
 			default:
 				// bfe's own error reply (400/413/414/500...) carries no echo: acceptable for this request
 				r.Count("bfe_generated_reply_"+strconv.Itoa(resp.Status), 1)
+				if c.Fam == "bodied" {
+					r.Count("bodied_family_bfe_generated_reply_"+strconv.Itoa(resp.Status), 1)
+				}
+				if resp.Status == 400 && c28WellFormed(q.Kind) {
+					// bfe writes "400 Bad Request" only when it could not parse a request head. The request
+					// at this position is well-formed, so what bfe parsed here was something else.
+					after := "first-request:" + q.Kind
+					if answered > 0 {
+						after = "after:" + c.Reqs[answered-1].Kind
+					}
+					r.Violation("bad-request-reply-to-wellformed-request:"+after, fmt.Sprintf("response #%d is bfe's 400 Bad Request although request #%d (%s) is well-formed: bfe did not find the start of that request", answered, answered, q.Kind), w)
+					ok = false
+				}
 			}
 			if !ok {
 				break
+			}
+			if shortAt >= 0 {
+				// a further response on the connection: bfe went on reading after a request whose declared
+				// body it had not consumed as a body
+				r.Violation("declared-body-not-consumed-and-connection-continued:"+c.Reqs[shortAt].Kind, fmt.Sprintf("request #%d (%s): %s; bfe nevertheless went on with the connection (response #%d follows)", shortAt, c.Reqs[shortAt].Kind, shortWhat, answered), w)
+				ok = false
+				break
+			}
+			if len(echo) == 1 && !strings.HasSuffix(q.Kind, "badsize") {
+				if bl := http1.Get(resp.Fields, "X-Body-Len"); len(bl) == 1 { // answered by the backend
+					bok := http1.Get(resp.Fields, "X-Body-Ok")
+					if bl[0] != strconv.Itoa(q.Blen) || len(bok) != 1 || bok[0] != "1" {
+						shortAt, shortWhat = answered, fmt.Sprintf("declared and sent a body of %d octets, the backend received %s octets as its body (content as sent: %v)", q.Blen, bl[0], len(bok) == 1 && bok[0] == "1")
+					} else if q.Blen > 0 {
+						r.Count("bodies_delivered_intact_to_backend", 1)
+					}
+				}
 			}
 			answered++
 			lastCloseDelimited = resp.CloseDelimited
@@ -491,6 +746,41 @@ func c28(r *vkit.Run) {
 				r.Violation("request-forwarded-twice:"+c.Reqs[j].Kind, fmt.Sprintf("request %s reached the backend %d times", c.rid(j), arrivals[c.rid(j)]), w)
 			}
 		}
+		if shortAt >= 0 && ok {
+			r.Count("backend_body_differs_connection_not_continued", 1) // not judged here: nothing was read after it
+		}
+		if res.seqGaveUp {
+			r.Count("keepalive_wait_expired", 1)
+		}
+		bodiedInSync := false
+		if c.Fam == "bodied" {
+			if c.Seq {
+				r.Count("bodied_connections_keepalive", 1)
+			} else {
+				r.Count("bodied_connections_pipelined", 1)
+			}
+			for j, q := range c.Reqs {
+				m, framing, mod, is := c28Bodied(q.Kind)
+				if !is {
+					continue
+				}
+				r.Count("bodied_sent:"+m+"-"+framing, 1)
+				// "followed": this request and the one after it were both answered in order,
+				// i.e. bfe found the next request right after the declared body
+				if ok && j+1 < answered {
+					bodiedInSync = true
+					r.Count("bodied_followed_in_sync:"+m+"-"+framing, 1)
+					if mod {
+						r.Count("bodied_followed_in_sync_unread_by_handler", 1)
+					}
+					if c.Seq {
+						r.Count("bodied_followed_in_sync_keepalive", 1)
+					} else {
+						r.Count("bodied_followed_in_sync_pipelined", 1)
+					}
+				}
+			}
+		}
 		terminalMid := false
 		for j, q := range c.Reqs[:len(c.Reqs)-1] {
 			_ = j
@@ -498,15 +788,22 @@ func c28(r *vkit.Run) {
 				terminalMid = true
 			}
 		}
-		r.CaseS(key, answered >= 2 || terminalMid)
+		if c.Fam == "bodied" {
+			r.CaseS(key, bodiedInSync)
+		} else {
+			r.CaseS(key, answered >= 2 || terminalMid)
+		}
 		r.Count("responses_parsed", int64(answered))
 		if answered == len(c.Reqs) {
 			r.Count("connections_fully_answered", 1)
 		} else {
 			r.Count("connections_closed_early", 1)
 		}
-		if r.WantSample() && i%211 == 0 && ok {
-			r.Sample(map[string]interface{}{"kinds": kinds, "answered": answered})
+		if ok && ((c.Fam == "" && i%211 == 0 && firstFamSamples < 3) || (c.Fam == "bodied" && bodiedInSync && i%97 == 0)) && r.WantSample() {
+			if c.Fam == "" {
+				firstFamSamples++ // leave room for samples of the second family
+			}
+			r.Sample(map[string]interface{}{"kinds": kinds, "answered": answered, "keep_alive": c.Seq})
 		}
 	}
 	for k, v := range e2e_panics(srv) {
@@ -516,6 +813,20 @@ func c28(r *vkit.Run) {
 	}
 	if n := r.Counter("not_run_after_repeated_hangs"); n > 0 {
 		r.Inconclusive(fmt.Sprintf("bfe left %d connections open until the client abandoned them (%v of silence); the remaining %d cases were not run", hungTotal.Load(), c28Grace, n))
+	}
+	if r.Replay == "" {
+		for _, m := range c28BodiedMethods {
+			for _, f := range []string{"cl", "chunked"} {
+				if r.Counter("bodied_followed_in_sync:"+m+"-"+f) == 0 {
+					r.Inconclusive("no " + strings.ToUpper(m) + " request with a " + f + " body was answered and followed by an answered request")
+				}
+			}
+		}
+		for _, k := range []string{"bodied_followed_in_sync_keepalive", "bodied_followed_in_sync_pipelined", "bodied_followed_in_sync_unread_by_handler"} {
+			if r.Counter(k) == 0 {
+				r.Inconclusive(k + " = 0")
+			}
+		}
 	}
 	if r.Replay == "" && r.Counter("connections_fully_answered") == 0 {
 		r.Inconclusive("no pipelined connection was answered completely")
